@@ -1,4 +1,5 @@
 """C06 — Voronoi FPS is an exact accelerator: it selects what plain FPS selects."""
+import json
 import multiprocessing as mp
 
 import numpy as np
@@ -166,6 +167,15 @@ def run(tier):
     if rs["error"]:
         raise core.Machinery("VoronoiFPS simulation: %s\n%s" % (rs["error"], core.tlc_error_excerpt(rs, 30)))
     rep.cov["parts"]["VoronoiFPS simulation, 8 points on {0,1,2,5,6,9}^2"] = {"states_checked": rs.get("sim_states", 0), "behaviours": rs.get("sim_traces", 0), "result": "no error"}
+    # spec -> code: the point sets / switching points / initial points of the behaviours TLC generated (tie-rich lattices)
+    simjobs, seen = [], set()
+    for b in rs["records"]:
+        if isinstance(b, dict) and b.get("k") == "F":
+            key = json.dumps([b["P"], b["ff"], b["sel"][0]])
+            if key not in seen and len(simjobs) < (200 if quick else 4000):
+                seen.add(key)
+                simjobs.append(b)
+    rep.cov["parts"]["VoronoiFPS simulation, 8 points on {0,1,2,5,6,9}^2"]["behaviours_replayed_in_the_code"] = len(simjobs)
     rep.cov["states"] += rs.get("sim_states", 0)
     rep.cov["transitions"] += rs.get("sim_states", 0)
     rep.cov["exhaustive"] = True
@@ -196,7 +206,15 @@ def run(tier):
     with mp.Pool(core.NCPU) as pool:
         cases = [t for part in pool.map(gen, jobs) for t in part]
         sched = [t for part in pool.map(gen_sched, sj) for t in part]
-    allc = cases + sched
+    from harness import selectors as H
+    simc = []
+    for k_, b in enumerate(simjobs):
+        X = np.asarray(b["P"], int)
+        cs = vcase(H, None, X, "sim-%d" % k_, {"initialize": int(b["sel"][0]) - 1, "full_fraction": int(b["ff"]) / 128.0, "n_trial_calculation": 1},
+                   [int(b["sel"][0]) - 1], len(X))
+        cs["kind"] = "tlc-behaviour"
+        simc.append(cs)
+    allc = cases + sched + simc
     verdicts, stats = core.validate_cases("trace/TraceFPS.tla", [strip(c) for c in allc])
     rep.add_trace_stats("TraceFPS[VoronoiFPS]", stats, len(allc))
     core.judge(rep, allc, verdicts)
